@@ -89,6 +89,9 @@ type tuple struct {
 	U          mask // "more update paths": added to a non-nil update mask; a nil update mask stays "all writable fields"
 	XAll       bool
 	Coll       bool
+	// NilLast (only with M == nil): the call first names an update path and then gives the nil update mask: options
+	// are applied in order and the later one counts - the write is a write of all writable fields
+	NilLast bool
 }
 
 func (t tuple) maskKey() string {
@@ -102,6 +105,9 @@ func (t tuple) maskKey() string {
 	}
 	if t.Add {
 		u += " via Collection.Add(absent id)"
+	}
+	if t.NilLast {
+		u += " (update path default_string given first, then the nil mask)"
 	}
 	return fmt.Sprintf("M=%v%s W=%v extra=%s reset=%v", t.M, u, t.W, x, t.R)
 }
@@ -169,6 +175,8 @@ func step(g target, id string, t tuple) (string, string) {
 	var wopts []resource.WriteOption
 	if t.M != nil {
 		wopts = append(wopts, resource.WithUpdateMask(lib.FM(t.M...)))
+	} else if t.NilLast {
+		wopts = append(wopts, resource.WithUpdatePaths("default_string"), resource.WithUpdateMask(nil))
 	}
 	key := t.maskKey()
 	if t.U != nil {
@@ -557,6 +565,17 @@ func main() {
 										s.Distinct(t.maskKey())
 									}
 									s.State(t.maskKey())
+									// a nil update mask given AFTER another mask option of the same call
+									if M == nil && (S+Wr)%2 == 0 {
+										tn := t
+										tn.NilLast = true
+										s.Eval(1)
+										s.Trans(1)
+										if k, m := check(tn); k != "" {
+											s.Fail(k, m, tn)
+										}
+										s.State(tn.maskKey())
+									}
 									// the same write once more with "more update paths" on top of its update mask
 									if (S+Wr)%3 == 0 && (s.Thorough || (mi+ri)%3 == 0) {
 										for _, U := range []mask{{"default_string"}, {"default_nested_message.a"}} {
